@@ -127,7 +127,7 @@ func c07Pts(f, gf int, vs []c07V, reverse bool) []s2.Point {
 
 type c07Region struct {
 	Loops [][]c07V `json:"loops"`
-	Top   int        `json:"top"`
+	Top   int      `json:"top"`
 }
 
 // loops of the region, or of its complement (the top-level loop `Top` reversed)
